@@ -52,6 +52,20 @@ PROPS = {
         assumptions=["alb and higress scripts are used with header matches only (a match without headers raises a script error in those classes: modelled as an error outcome)"],
         explanation="history independence proved for all four classes through one generic clear-then-set theorem; path exactness proved for all Ingresses",
     ),
+    "C19": dict(
+        engines=[dict(name="isolation", quick=240, thorough=6000, shard=400, trivial_tags=[], race=True, timeout=3000)],
+        rule="the harness is built with the Go race detector (-race) for this check. Three quarters of the cases are histories on the REAL process-wide grace expectation store: "
+             "2-3 owners with the key shapes the traffic manager derives (rollout UID / stable Service UID / namespace-name of the canary Service), 4-17 interleaved "
+             "RunWithGraceSeconds calls (modified / unmodified / failing closures, zero grace), clock advances and restarts; each owner's answers are compared with a second real run "
+             "containing only that owner's calls, and the whole history with the model. One quarter are 2-3 generated Rollouts with traffic routing (rollouttr generator: every "
+             "phase, finalising cursors, network states), each in its own namespace with its own UIDs but identical object names, reconciled 2-4 times by one goroutine per Rollout "
+             "CONCURRENTLY on one client and one process (shared grace store, watch registry, Lua configuration), compared object by object (timestamps scrubbed) with the same "
+             "Rollout run alone; a data race report or a panic fails the check; non-trivial = every case; distinct = distinct input JSON",
+        trusted=["Go race detector (dynamic: it sees the interleavings that occur)", "controller-runtime fake client is goroutine-safe", "hooks VerifNewReconciler, grace.VerifAge"],
+        assumptions=["Rollouts have distinct UIDs, their stable Services are distinct objects, canary Service namespace/name pairs are distinct (otherwise they share keys by design)",
+                     "BatchRelease controller and creation expectations are not part of the concurrent run"],
+        explanation="non-interference theorem for the shared store over all interleavings; race freedom and equality with the solo run are tests on the real code under -race",
+    ),
     "C20": dict(
         engines=[dict(name="convert", quick=900, thorough=45000, shard=300, trivial_tags=[])],
         rule="seeded generator of v1alpha1 Rollouts (every optional block nil or present, 0-4 steps with weight/replicas/pause/header modifier/header matches "
@@ -286,6 +300,15 @@ MANIFEST_TEXT = {
         note="The script models are tied to the .lua files by execution only (no Lua semantics in Coq). 'The stable Ingress is never modified' and 'finalise deletes the "
              "canary Ingress' are checked on the implementation, the model has no write to the stable object at all.",
         design_ref="DESIGN.md section 9, C14"),
+    "C19": dict(
+        text="Partial proof. Proved: for every interleaving of RunWithGraceSeconds calls of any number of Rollouts with clock advances and process restarts, the answers a Rollout "
+             "gets from the process-wide expectation store are exactly those it gets alone, provided the others do not use its keys (the keys embed the Rollout's UID, the stable "
+             "Service's UID or the canary Service's namespace/name). The store model is compared with the real store on generated histories, and the real store's answers "
+             "interleaved vs alone are compared directly. Tested, not proved: 2-3 real Rollout reconcilers run concurrently in one process under the Go race detector reach, "
+             "object by object, the state each reaches alone, with no race report and no panic.",
+        note="Data-race freedom is a property of the Go execution: it is tested dynamically (race detector), which is exploration, not proof. The dynamic watch registry and the Lua "
+             "runtime are exercised by the concurrent run only.",
+        design_ref="DESIGN.md section 9, C19"),
     "C20": dict(
         text="Proof: for every v1alpha1 Rollout/BatchRelease of the modelled shape (optional blocks absent or present, any step list) the v1alpha1 -> v1beta1 -> "
              "v1alpha1 round trip yields an object with the same meaning, every canary-strategy v1beta1 Rollout restricted to v1alpha1-expressible fields survives "
